@@ -56,6 +56,14 @@ def run_c04(rep):
     rep.coverage["evaluations"] = rep.coverage.get("evaluations", 0) + 1
 
 
+def run_c07(rep):
+    n, ops = sizes(rep, (400, 14), (6000, 40))
+    families.play_family(rep, n, ops, features=dict(params=0.85, shadow=0.5, block_jumps=0.4, top_jumps=0.4, probes=0.9,
+                                                    block_choices=0.7, loops=0.5),
+                         weights=dict(choose=65, goto=10, bad=3, undo=5, redo=3, read=5),
+                         oracle_names=["oracle_c07"], known_classes=known_classes("C07"), label="c07")
+
+
 # ------------------------------------------------------------------------------------------------ registry
 
 PROPS = {
@@ -81,6 +89,19 @@ PROPS = {
              "with in-place list/dict mutation, chains, hooks, parameters, @join; plus a 60-choice probe crossing the "
              "50-deep bound; distinct by hash; non-trivial = an accepted choice and at least one undo/redo/goto/load",
     ),
+    "C07": dict(
+        theorems=[T + "goto_scopes_balanced", T + "goto_frame", T + "step_scopes", T + "reachable_no_scope",
+                  T + "writeBack_skips", T + "bind_eq_pyCall", T + "validated_bind_never_missing", T + "pyCall_of_valid"],
+        run=run_c07,
+        rule="stories with parameterised passages (positional / keyword / defaults using earlier parameters / "
+             "parameters shadowing globals) called from top-level choices, block choices, top-level and block jumps; "
+             "each passage records dict(_local) on entry; the oracle binds the arguments independently by Python's "
+             "call rule in the caller's variables; distinct by hash; non-trivial as for C02",
+        level_text="proof: goto_frame/step_scopes/reachable_no_scope (scope stack restored by every call, success or "
+                   "failure, for every story and Sem), writeBack_skips (parameters and _names never written to the "
+                   "globals), bind_eq_pyCall + validated_bind_never_missing (the engine's binding equals Python's call "
+                   "rule on every validated call site, for all argument values)",
+    ),
 }
 
 
@@ -98,7 +119,7 @@ def known_classes(prop):
     return {f["cls"] for f in framework.load_findings(prop) if f["cls"]}
 
 
-ORACLES_FOR = {"C02": ["oracle_c02"], "C03": ["oracle_c03"], "C04": ["oracle_c04"]}
+ORACLES_FOR = {"C02": ["oracle_c02"], "C03": ["oracle_c03"], "C04": ["oracle_c04"], "C07": ["oracle_c07"]}
 
 
 def replay_findings(prop, rep):
